@@ -108,6 +108,28 @@ def closed_enum(doc, rnd):
     return f"closed enumerations {n} (one member named like a Python keyword) and {m}, used by {h}"
 
 
+def open_enums(doc, rnd):
+    """NOT part of EDITS: the property lists *closed* enumerations among the evolution edits; a new enumeration with
+    supportsCustomValues needs a hand-written `Union[Enum, base]` hook in _hooks.py and is outside the generator's input discipline
+    (the package emitted for such a model cannot structure the new enum's use sites).  Kept for experiments only.
+    Enumerations that support custom values, one per base type the metamodel allows (string, integer, uinteger), referenced by a
+    plain property, an optional property and an array: every use site has to accept any value of the base type."""
+    made = []
+    for base, vals in (("string", [("Alpha", "alpha"), ("Beta", "beta")]), ("integer", [("Neg", -3), ("Pos", 4)]), ("uinteger", [("One", 1), ("Two", 2)])):
+        n = _fresh(doc, "EvolvedOpen" + base.capitalize())
+        doc["enumerations"].append({"name": n, "type": B(base), "supportsCustomValues": True,
+                                    "values": [{"name": a, "value": b} for a, b in vals]})
+        made.append(n)
+    h = _fresh(doc, "EvolvedOpenEnumHolder")
+    props = []
+    for n in made:
+        low = n[0].lower() + n[1:]
+        props += [{"name": low, "type": R(n)}, {"name": low + "Maybe", "type": R(n), "optional": True},
+                  {"name": low + "List", "type": {"kind": "array", "element": R(n)}, "optional": True}]
+    doc["structures"].append({"name": h, "properties": props})
+    return f"open enumerations {', '.join(made)} (supportsCustomValues) used by {h} as property, optional property and array element"
+
+
 def enum_value(doc, rnd):
     e = next(e for e in doc["enumerations"] if e["name"] == "MarkupKind")
     if any(v["name"] == "Asciidoc" for v in e["values"]):
